@@ -468,6 +468,47 @@ def run(prog, check):
     check.ob('C20.R3', '%s::time-axis-first-once' % b.key, ok, b.where,
              "'t' is moved to the front (removed once, prepended once)" if ok else "'t' is not moved to the front exactly once (%s)" % why_t,
              'a block with a t variable')
+    # every row lists, in the order of the header, the value of that variable at the row index
+    if header is not None:
+        from ..tableterm import TermEval as _TE, SEQ as _SEQ, line_groups as _lg, show as _show, canon_index as _ci
+        seqname_ = header[1]
+
+        class _SolverTable(_TE):
+            def ev(self, e, env):
+                if isinstance(e, ast.Name) and e.id == seqname_:
+                    return _SEQ
+                if isinstance(e, ast.Call) and call_name(e) == 'str' and len(e.args) == 1 and not e.keywords:
+                    return ('fmt', ('str', '%s'), self.ev(e.args[0], env))
+                return _TE.ev(self, e, env)
+
+            def source_call(self, e, nm, env):
+                if nm == 'getattr' and len(e.args) == 2 and unparse(e.args[0]) == 'self':
+                    return ('series', self.ev(e.args[1], env))
+                return None
+        te_ = _SolverTable(b.node)
+        te_.run(b.params())
+        bad_rows = []
+        for term_, assum_, line_ in te_.returns:
+            groups_ = _lg(term_) if term_[0] in ('cat', 'str', 'join', 'rep') else None
+            where_ = '%s:%d' % (b.module.rel, line_)
+            if groups_ is None:
+                bad_rows.append((where_, 'the text returned is not a sequence of lines built from the variables: %s' % _show(term_)[:160]))
+                continue
+            hdr_ok = bool(groups_) and groups_[0] == ('line', ('join', ('str', '\t'), _SEQ))
+            rows_ = [g_ for g_ in groups_[1:] if g_[0] == 'lines']
+            if not hdr_ok or len(groups_) != 2 or len(rows_) != 1:
+                bad_rows.append((where_, 'the table is %s, required the header line and one line per period' % [_show(g_)[:80] for g_ in groups_]))
+                continue
+            r_ = rows_[0]
+            body_ = r_[2]
+            want_ = None
+            if body_[0] == 'join' and body_[1] == ('str', '\t') and body_[2][0] == 'map' and body_[2][3] == _SEQ:
+                want_ = ('fmt', ('str', '%s'), ('cell', body_[2][1], r_[1]))
+            if want_ is None or body_[2][2] != want_:
+                bad_rows.append((where_, 'a row is `%s`: not the value of every header column, in header order, at the row index' % _show(body_)[:200]))
+        check.ob('C20.R3', '%s::rows-follow-header' % b.key, not bad_rows, bad_rows[0][0] if bad_rows else b.where,
+                 'each row holds str(series[i]) for the variables of the header, in header order' if not bad_rows else
+                 '; '.join(sorted({x[1] for x in bad_rows}))[:500], 'a block with a t variable that is not the first in the variable list')
     # the generated text is produced from the block that is parsed now: a generator method never hands back text it
     # remembered from an earlier call
     for gm_ in gen_cls.methods.values():
